@@ -40,10 +40,10 @@ func checkC10(c *Ctx) {
 		c.R.Break("anchor not found: sseutil.Writer / NewWriter / GenerateEventID")
 		return
 	}
-	senderI := c.P.RootNamed("notificationSender")
-	reqH := c.P.RootNamed("requestHandler")
+	senderI := c.senderIface()
+	reqH := c.dispatcherIface()
 	if senderI == nil || reqH == nil {
-		c.R.Break("anchor not found: notificationSender / requestHandler interfaces")
+		c.R.Break("anchor not found: the notification-sender / request-dispatcher interfaces (by shape)")
 		return
 	}
 	senderIface := senderI.Underlying().(*types.Interface)
@@ -232,7 +232,7 @@ func checkC10(c *Ctx) {
 		sse := false
 		for _, g := range flow.Guards(post, call.Block()) {
 			if ex, ok := g.If.Cond.(*ssa.Extract); ok && ex.Index == 1 && g.Branch {
-				if ta, ok := ex.Tuple.(*ssa.TypeAssert); ok && strings.Contains(ir.TypeStr(ta.AssertedType), "sseResponder") {
+				if ta, ok := ex.Tuple.(*ssa.TypeAssert); ok && c10StreamingType(c, ta.AssertedType) {
 					sse = true
 				}
 			}
@@ -424,4 +424,27 @@ func c10Params(c *Ctx) {
 	c.R.Check(same, "R-params-keys", "NotificationParams special members", c.Pos(T.Obj().Pos()), sprintf("both directions single out %v", m),
 		sprintf("NotificationParams.MarshalJSON singles out %v but UnmarshalJSON %v: _meta / additional fields do not round-trip", m, u))
 	c.R.Min("R-params-keys", 1)
+}
+
+// c10StreamingType: the methods of T that take an http.ResponseWriter stream their answer (they flush the writer, or
+// reach code that does) — the event-stream responder, as opposed to the one that writes a single JSON body.
+func c10StreamingType(c *Ctx, T types.Type) bool {
+	var roots []*ssa.Function
+	for _, fn := range c.P.LibFns {
+		if fn.Signature.Recv() != nil && types.Identical(fn.Signature.Recv().Type(), T) && hasWriterParam(fn) {
+			roots = append(roots, fn)
+		}
+	}
+	if len(roots) == 0 {
+		return false
+	}
+	streaming := false
+	for f := range c.ReachSync(roots...) {
+		ir.EachCall(f, func(call ssa.CallInstruction) {
+			if ir.CallName(call) == "(net/http.Flusher).Flush" {
+				streaming = true
+			}
+		})
+	}
+	return streaming
 }
